@@ -35,6 +35,13 @@ DEFECTS = [
     ("F29", 5, "IDMAP ne app:1:2 sa:2:idx sid:2:1 get:idx rm:2 get:idx",
      "getElementById returns an element that has been removed from the document tree (the ID map is keyed by attribute "
      "only; DOM: the element must be in the document -- a linear scan of the tree finds none)"),
+    ("F30", 6, "1111111 nt:ab ins:1:2:- nc:cmt ins:1:3:- nt:cd ins:1:4:- rg rs:0:2:1 re:0:4:1 rstr:0",
+     "Range::toString appends the contents of Comment nodes (and of a Comment boundary container) although the string "
+     "'contains only the data characters, not any markup' (DOM Range, toString)"),
+    ("F31", 7, "1111111 nt:hello ins:1:2:- ne:b ins:1:3:- rg rs:0:2:2 re:0:1:2 rg rs:1:2:1 re:1:2:1 rdel:0",
+     "deleteContents/extractContents truncate a partially selected Text/Comment boundary node with setNodeValue: every "
+     "OTHER live range with a boundary point in the kept part of that node is thrown to offset 0 instead of staying "
+     "where it is (Range 2.12.2: only points behind the deleted characters move)"),
 ]
 MASKS = [65535, 65535, 1, 4, 5, 128, 133, 260, 261]
 NAMES = "abcde"
@@ -67,6 +74,8 @@ class Mirror:
         self.ops = []
         self.stats = {}
         self.fresh_ok = rng.random() < 0.12              # may this history leave a NodeIterator unpositioned?
+        self.content = rng.random() < 0.4                # does this history use the Range content operations?
+        self.stale = False                               # the mirror does not follow the content operations
 
     def emit(self, s, cat):
         self.ops.append(s)
@@ -133,6 +142,58 @@ class Mirror:
             return 1
         k = {"t": 5, "c": 6}.get(self.kind[x], NAMES.index(self.name[x]) if self.kind[x] == "e" else 0)
         return int(self.tab[k])
+
+    def bp_path(self, x, off):
+        p = [off]
+        while self.parent.get(x) is not None:
+            p.append(self.kids[self.parent[x]].index(x))
+            x = self.parent[x]
+        return p[::-1]
+
+    def content_op(self, k, tn):
+        """a Range content operation on range k, mostly after giving the range an ordered pair of boundary points
+        aimed at the case split of traverseContents (same container / start holds end / end holds start / common
+        ancestor; boundaries inside character data, at 0 and at the end)"""
+        rng = self.rng
+        if rng.random() < 0.7 and not self.stale:
+            def point():
+                x = rng.choice(tn)
+                ln = self.length(x)
+                return (x, rng.choice([0, ln, rng.randint(0, ln), rng.randint(0, ln)]))
+            a, b = point(), point()
+            c = rng.random()
+            if c < 0.25:                                 # same container
+                b = (a[0], rng.randint(0, self.length(a[0])))
+            elif c < 0.45 and self.kids.get(a[0]):       # the end below a child of the start container
+                sub = [x for x in tn if x != a[0] and self.is_anc(a[0], x)]
+                if sub:
+                    x = rng.choice(sub)
+                    b = (x, rng.randint(0, self.length(x)))
+            if self.bp_path(*b) < self.bp_path(*a):
+                a, b = b, a
+            self.emit("rs:%d:%d:%d" % (k, a[0], a[1]), "rg-set")
+            self.emit("re:%d:%d:%d" % (k, b[0], b[1]), "rg-set")
+        c = rng.random()
+        if c < 0.30:
+            self.emit("rstr:%d" % k, "rg-tostring")
+        elif c < 0.48:
+            self.emit("rclone:%d" % k, "rg-clone")
+        elif c < 0.66:
+            self.emit("rdel:%d" % k, "rg-delete")
+            self.stale = True
+        elif c < 0.82:
+            self.emit("rext:%d" % k, "rg-extract")
+            self.stale = True
+        else:
+            if rng.random() < 0.6:
+                n = self.new(rng.choice("eetc"))
+            else:
+                n = rng.choice([x for x in self.kind if x not in (0, 1)] or [1])
+            self.emit("rinsn:%d:%d" % (k, n), "rg-insertnode")
+            self.next += 1                               # the id of the split node (or a burnt id)
+            self.stale = True
+        if rng.random() < 0.5:                           # look at what is left
+            self.emit("val:%d" % rng.choice(list(self.kind)), "val")
 
     # ---- one random step -------------------------------------------------------------------------------
     def mutate(self):
@@ -285,6 +346,9 @@ class Mirror:
                     self.emit("%s:%d:%d:%d" % (o, k, x, rng.randint(0, self.length(x))), "rg-set")
                 return
             k = rng.choice(live)
+            if self.content and rng.random() < 0.4:
+                self.content_op(k, tn)
+                return
             r = rng.random()
             x = rng.choice(tn) if rng.random() < 0.97 else rng.choice(list(self.kind))
             if r < 0.45:
@@ -485,8 +549,8 @@ def run(ctx):
     ctx.coverage["trusted_base"] = list(V.GLOBAL_TRUSTED_BASE) + [
         "the rose-tree semantics of the DOM mutations (Spec14.v: f_insert/f_remove/f_set_val) are shared by the "
         "specification and the model; they are tied to the library by the per-op `val` dumps of the correspondence",
-        "XPath results, NamedNodeMap, getElementById and the range content operations (extract/clone/delete/insert/"
-        "surround/toString) are not modelled"]
+        "XPath results, NamedNodeMap, surroundContents/selectNode are not modelled; model = specification for the Range "
+        "content operations (toString/clone/extract/delete/insertNode) is established by the correspondence, not proved"]
     ctx.assumptions = ["node filters are pure functions of the node name/type (table filter)",
                        "change counter does not wrap (nat in the model, int in the code)",
                        "TreeWalker.currentNode is only set to the root or to nodes the walker accepts"]
@@ -514,7 +578,7 @@ def run(ctx):
     wit = [d[2] for d in DEFECTS]
     _, w_impl, _ = run_bin([xh], wit)
     _, w_spec, _ = run_bin([xm, "spec"], wit)
-    _, w_bug, _ = run_bin([xm, "model", "000000"], wit)
+    _, w_bug, _ = run_bin([xm, "model", "00000000"], wit)
     if len(w_impl) != len(wit):
         ctx.violation("harness-crash", {"what": "harness lost lines on the witnesses", "answered": len(w_impl)})
         return
@@ -575,7 +639,7 @@ def run(ctx):
         return
     _, model, err2 = run_bin([xm, "model", flags], reqs)
     _, spec, _ = run_bin([xm, "spec"], reqs)
-    _, fixed, _ = run_bin([xm, "model", "111111"], reqs)
+    _, fixed, _ = run_bin([xm, "model", "11111111"], reqs)
     ctx.note("histories %d: harness %.1fs, model+spec %.1fs" % (len(reqs), t1 - t0, time.time() - t1))
     if len(model) != len(reqs) or len(spec) != len(reqs) or len(fixed) != len(reqs):
         ctx.violation("model-crash", {"what": "model driver crashed", "stderr": err2[-1500:]}, no_input=True)
@@ -689,6 +753,8 @@ def run(ctx):
     ctx.coverage["rule"] = ("seeded histories over one document: a seeded tree of 5-13 nodes, then 70-140 (thorough 160-320) "
                             "ops mixing subtree insert/remove/move, insertData/deleteData/replaceData/setData/appendData/"
                             "splitText with creation, stepping and querying of up to 3 NodeIterators, 3 TreeWalkers "
-                            "(whatToShow masks x table filter accept/reject/skip), 4 tag-name lists and 3 Ranges; every op's "
+                            "(whatToShow masks x table filter accept/reject/skip), 4 tag-name lists and 3 Ranges; 40% of the histories "
+                            "also use the ranges for toString/cloneContents/extractContents/deleteContents/insertNode with boundary "
+                            "points aimed at the four container relationships of traverseContents; every op's "
                             "result and every range's boundary points are compared after every op; a history is non-trivial "
                             "by construction (mutations interleaved with live views), distinct by request text")
